@@ -31,11 +31,15 @@ TEXT = {
               'later branches which are not evaluated (if_lazy), nothing when none is (if_none), and fails when the first '
               'non-falsy test fails (if_cond_err); unless is the dual of if for every condition, erroring ones included '
               '(unless_dual); case renders the first when-clause listing a value equal to the subject, else the else clause, else '
-              'nothing (case_first_equal, case_else, case_none). Tie: the `cond` stream answers every case by the model and the '
+              'nothing (case_first_equal, case_else, case_none). Closed forms composing these: for every branch list and state, '
+              'rendering an if/elsif/else or unless chain equals rendering the body that List.find? selects - the first branch '
+              'whose test is not falsy - or failing with that test\'s error at its own tag, or nothing (if_denotation, '
+              'if_denotation_selects, if_node_denotation); likewise the clauses of a case over the first clause that is an else '
+              'or lists a value equal to the subject (case_denotation, case_node_denotation, case_subject_err). Tie: the `cond` stream answers every case by the model and the '
               'real engine, and an independent reference (harness/ref_prog.go) checks the selected marker, laziness and the '
               'if/unless duality on the real output.'),
     "design_ref": 'DESIGN.md 6 C10',
     "note": NOTE + (""),
-    "technique": ('Lean 4 proof (induction over the branch list of the render model) + model/implementation correspondence + '
+    "technique": ('Lean 4 proof (induction over the branch list of the render model; closed forms over List.find?) + model/implementation correspondence + '
               'independent reference and metamorphic oracle'),
 }
